@@ -185,6 +185,16 @@ def run_inputs(case, ctx, viol, counters, sigs):
     m = dict(params); m["RelayState"] = (m.get("RelayState", "") + "x"); muts["relaystate-changed-or-added"] = m
     if "RelayState" in params:
         m = dict(params); del m["RelayState"]; muts["relaystate-removed"] = m
+    # values that differ from the signed ones only in something a text-normalising layer would fold away
+    rs = params.get("RelayState", "")
+    for nm, val in (("trailing-lf", rs + "\n"), ("trailing-crlf", rs + "\r\n"), ("trailing-blank", rs + " "), ("leading-blank", " " + rs),
+                    ("lf-to-crlf", rs.replace("\n", "\r\n")), ("lf-to-ls", rs.replace("\n", "\u2028")), ("crlf-to-lf", rs.replace("\r\n", "\n")),
+                    ("case-swapped", rs.swapcase()), ("nfd", __import__("unicodedata").normalize("NFD", rs)), ("nfkc", __import__("unicodedata").normalize("NFKC", rs)),
+                    ("tab-to-blank", rs.replace("\t", " "))):
+        if val != rs:
+            m = dict(params); m["RelayState"] = val; muts["relaystate-" + nm] = m
+    m = dict(params); m[typ] = m[typ] + "\n"; muts["message-trailing-lf"] = m
+    m = dict(params); m[typ] = " " + m[typ]; muts["message-leading-blank"] = m
     m = dict(params); m["SigAlg"] = other_alg; muts["sigalg-swapped"] = m
     m = dict(params); m["SigAlg"] = "http://www.w3.org/2000/09/xmldsig#dsa-sha1"; muts["sigalg-unsupported"] = m
     m = dict(params); m["SigAlg"] = ""; muts["sigalg-empty"] = m
